@@ -170,7 +170,8 @@ Proof. cbv zeta. repeat split; vm_compute; reflexivity. Qed.
    Improvement round (audit C15): Tag-level NoDup, default arguments, sys_tags NoDup, threading, default ABI, EXT_SUFFIX forms
    ==================================================================================================================== *)
 
-(* 14. "no tag is repeated when the inputs have no repeats", about the Tag objects (Tag() lower-cases its parts):
+(* 14. "no tag is repeated when the inputs have no repeats", about the Tag objects (Tag() lower-cases its parts; [lower] is the exact
+       str.lower() of NamesX - full Unicode table and Final_Sigma - so the statements cover non-ASCII text: C15_non_ascii):
        "no repeats" is read after lower-casing, and no explicit ABI may be a differently-cased spelling of abi3/none
        (list.remove / `"none" in abis` compare the raw text).  On lower-case input this is exactly 9. (C15_lowercase_identity). *)
 Theorem C15_nodup_tags_cpython pv abis ps :
@@ -204,6 +205,16 @@ Theorem C15_compatible_side_conditions_needed :
   ~ NoDup (map lower_tag (compatible_tags (3, [1])%nat (Some (s_py ++ [51])) [[112]])).
 Proof. exact compatible_repeats. Qed.
 Print Assumptions C15_compatible_side_conditions_needed.
+
+(* 14b. outside ASCII: U+212A KELVIN SIGN lower-cases to "k", so platforms ["\u212a"; "k"] are the same platform twice (the hypothesis of
+        14. fails and every tag is repeated); the digit class of the free-threading test is the Unicode one: "cp" + ARABIC-INDIC DIGIT
+        THREE + "t" is recognised as free-threaded although U+0663 is no ASCII digit *)
+Theorem C15_non_ascii :
+  (NoDup [[8490]; [107]] /\ ~ NoDup (map lower [[8490]; [107]]) /\
+   ~ NoDup (map lower_tag (cpython_tags (3, [9])%nat [s_cp ++ [51; 57]] [[8490]; [107]]))) /\
+  (threaded_abi (s_cp ++ [1635; 116]) = true /\ is_digit 1635 = false).
+Proof. split; [exact kelvin_repeats | exact arabic_digit_threaded]. Qed.
+Print Assumptions C15_non_ascii.
 
 (* 15. the default arguments, as the correspondence run executes them (Run/RunTags.v: cpython_tags_d, compatible_tags_d,
        generic_tags_d): an empty platform list is replaced by the detected list, a missing python_version by
@@ -256,7 +267,7 @@ Qed.
 Print Assumptions C15_sys_tags_python_repeats.
 
 (* 17. "never for free-threaded ABIs", precisely.  An ABI is recognised as free-threaded iff it is  cp <digits> <flags> [NEWLINE ...]
-       with a "t" among the flags (the rest of the first line after the digit run).  The decision is made on the FIRST explicit
+       (digits: the Unicode decimal digits the regex class backslash-d matches, TagsModel.is_ud) with a "t" among the flags (the rest of the first line after the digit run).  The decision is made on the FIRST explicit
        ABI that remains after abi3/none were removed, on the raw text: a free-threaded ABI in second position, or spelled in upper
        case, still gets abi3 tags (counterexamples), and any "t" in the flags counts (cp313_stable gets none). *)
 Theorem C15_threaded_spec a : threaded_abi a = true <-> threaded_shape a.
@@ -331,8 +342,12 @@ Proof.
 Qed.
 Print Assumptions C15_generic_abi_forms.
 
-(* non-vacuity of 14.-19. (closed boolean computations): mixed-case input that satisfies the hypotheses of 14. has no repeated Tag;
-   the fallbacks fire; a threaded ABI has the stated shape; the documented EXT_SUFFIX examples are instances of 19. *)
+(* non-vacuity of 14.-19. (closed boolean computations): mixed-case input that satisfies the hypotheses of 14. has no repeated Tag
+   (cpython, generic, compatible); the fallbacks fire; a threaded ABI has the stated shape; sys_tags of a CPython and of a PyPy
+   configuration satisfy the hypotheses of 16. and repeat nothing; the documented EXT_SUFFIX examples are the instances
+   X = "310" / A = "38", B = "pp73" / A = "", B = "38", C = "native" / ".pyd" of 19. *)
+Definition gres_is (r : gres) (want : list (list N)) : bool :=
+  match r with GOk l => Nat.eqb (length l) (length want) && forallb (fun p => streq (fst p) (snd p)) (combine l want) | _ => false end.
 Definition C15_round2_check : bool :=
   let abis := [[67;80;51;57]; s_cp ++ [51;57;109]] in let ps := [[80]; [113]] in             (* ["CP39"; "cp39m"], ["P"; "q"] *)
   negb (has_dup (map lower_tag (cpython_tags (3, [9])%nat abis ps))) &&
@@ -341,6 +356,22 @@ Definition C15_round2_check : bool :=
   streq (fst (fst (hd ([], [], []) (generic_tags_d {| d_plats := [[120]]; d_sysver := (3, [12])%nat; d_name := s_pypy; d_nodot := None |} [] [] []))))
         (s_pp ++ [51;49;50]) &&
   threaded_abi s_cp313t && negb (threaded_abi s_cp313) &&
+  (* 14., compatible_tags: interpreter "CP39", platforms ["P"; "q"] *)
+  negb (has_dup (map lower_tag (compatible_tags (3, [9])%nat (Some [67;80;51;57]) ps))) &&
+  negb (mem (lower [67;80;51;57]) (py_range (3, [9])%nat)) && negb (mem s_any (map lower ps)) &&
+  (* 16., the non-CPython branch: PyPy 3.8 with EXT_SUFFIX .pypy38-pp73-x86_64-linux-gnu.so on two platforms *)
+  match sys_tags {| impl_name := s_pypy; py_version_nodot := None; sys_version := (3, [8])%nat;
+                    ext_suffix := Some [46;112;121;112;121;51;56;45;112;112;55;51;45;120;56;54;95;54;52;45;108;105;110;117;120;45;103;110;117;46;115;111];
+                    abi_cfg := cfg0 |} [[120]; [121]] with
+  | SOk l => negb (has_dup (map lower_tag l)) && negb (mem (lower (s_pp ++ [51;56])) (py_range (3, [8])%nat))
+  | _ => false end &&
+  (* 19.: .cp310-win_amd64.pyd / .pypy38-pp73-x86_64-linux-gnu.so / .graalpy-38-native-x86_64-darwin.dylib / .pyd / ..so *)
+  gres_is (generic_abi (Some ([46] ++ (s_cp ++ [51;49;48] ++ [45;119;105;110;95;97;109;100;54;52]) ++ [46;112;121;100])) cfg0 (3, [10])%nat) [s_cp ++ [51;49;48]] &&
+  gres_is (generic_abi (Some ([46] ++ (s_pypy ++ [51;56] ++ 45 :: [112;112;55;51] ++ [45;120]) ++ [46;115;111])) cfg0 (3, [8])%nat) [s_pypy ++ [51;56;95;112;112;55;51]] &&
+  gres_is (generic_abi (Some ([46] ++ (s_graalpy ++ [] ++ 45 :: [51;56] ++ 45 :: [110;97;116;105;118;101] ++ [45;120]) ++ [46;115;111])) cfg0 (3, [8])%nat)
+          [s_graalpy ++ [95;51;56;95;110;97;116;105;118;101]] &&
+  gres_is (generic_abi (Some [46;112;121;100]) cfg0 (3, [7])%nat) [s_cp ++ [51;55;109]] &&
+  gres_is (generic_abi (Some [46;46;115;111]) cfg0 (3, [7])%nat) [] &&
   match sys_tags {| impl_name := s_cpython; py_version_nodot := None; sys_version := (3, [12])%nat; ext_suffix := None; abi_cfg := cfg0 |} [[120]; [121]] with
   | SOk l => negb (has_dup (map lower_tag l)) && Nat.eqb (length l) 69 | _ => false end.
 Example C15_round2_nonvacuous : C15_round2_check = true.
